@@ -362,6 +362,7 @@ func extractStructFields(pkg *packages.Package, qf types.Qualifier, depth int32,
 			depth:         depth,
 			isNew:         isNew,
 			typ:           f.Type(),
+			jsonTag:       parseJSONTag(st.Tag(i)),
 		})
 	}
 }
